@@ -503,6 +503,9 @@ func runScript(sc *Script) *Outcome {
 		r.viol("close-returns", "close-hang", fmt.Sprintf("Close did not return within %v; goroutines:\n%s", r.bound(), strings.Join(libGoroutines(), "\n\n")))
 		aborted = true
 	} else {
+		if !gortsplib.VerifClientSnapshot(c).Closed {
+			r.viol("close-complete", "close-returned-early", "Close() returned before the run loop had finished (done is not closed)")
+		}
 		select {
 		case <-r.waited:
 		case <-time.After(time.Second):
